@@ -66,12 +66,32 @@ def history_check(run, n, length):
                 if ids is not None and ids and rng.random() < 0.3:
                     ids = ids + [ids[0]]            # a repeated coalition, with an equal value below
                 xs = [val() for _ in (ids if ids is not None else range(N))]
+                # argument KINDS: the bulk operations take any array-like - integer arrays, lists of Python ints, float32 and
+                # boolean arrays included; whatever comes in, the table stays a float64 map (later fractional values survive)
+                kind = rng.choice(["float64", "float64", "int64", "list_of_ints", "float32", "list_of_floats", "bool"])
+                if kind in ("int64", "list_of_ints"):
+                    xs = [float(round(x)) for x in xs]
+                elif kind == "bool":
+                    xs = [float(rng.random() < 0.5) for _ in xs]
                 if ids is not None and len(ids) >= 2 and ids[-1] == ids[0]:
                     xs[-1] = xs[0]
+
+                def as_arg(seq):
+                    if kind == "int64":
+                        return np.array([int(y) for y in seq], dtype=np.int64)
+                    if kind == "list_of_ints":
+                        return [int(y) for y in seq]
+                    if kind == "float32":
+                        return np.array(seq, dtype=np.float32)
+                    if kind == "list_of_floats":
+                        return list(seq)
+                    if kind == "bool":
+                        return np.array([bool(y) for y in seq], dtype=bool)
+                    return np.array(seq, dtype=float)
                 arg = None if ids is None else [co.Coalition(i) for i in ids]
                 tgt = list(range(N)) if ids is None else ids
                 if op == "set_values":
-                    g.set_values(np.array(xs, dtype=float), arg)
+                    g.set_values(as_arg(xs), arg)
                     for i, y in zip(tgt, xs):
                         model[i] = [True, y, y]
                 elif op == "set_known_values":
@@ -80,12 +100,12 @@ def history_check(run, n, length):
                     for i, y in zip(tgt, xs):
                         model[i] = [True, y, y]
                 elif op == "set_upper_bounds":
-                    g.set_upper_bounds(np.array(xs, dtype=float), arg)
+                    g.set_upper_bounds(as_arg(xs), arg)
                     for i, y in zip(tgt, xs):
                         if not model[i][0]:
                             model[i][2] = y
                 else:
-                    g.set_lower_bounds(np.array(xs, dtype=float), arg)
+                    g.set_lower_bounds(as_arg(xs), arg)
                     for i, y in zip(tgt, xs):
                         if not model[i][0]:
                             model[i][1] = y
